@@ -10,6 +10,17 @@ COMMON_NOTE = ("Trusted base: pyvc engine (AST transform T1-T3 of the real sourc
                "lift to C), A3 (integer powers), A4 (path forking via z3), A5 (numpy shim contracts, listed per run in evidence.trusted_base). ")
 
 CLAIMED = {
+    "C37": dict(
+        category="proof",
+        text=("Map clause by induction over the history with an EXHAUSTIVELY checked step: every state satisfying the representation invariant (disk = model with one header and one "
+              "operator file per point, cache keys = model keys, loaded entries = model values) over three evolution points and two values (with / without errors; 125 states) x every "
+              "operation (set, get, unload, contains, iterate, items, unload-all, close-and-reopen through the real EKO.load / Inventory.sync; 19 operations, 2375 transitions) is run on the real "
+              "code over a ghost file system; the answer equals the dictionary model's and the invariant is re-established.  Two defects repaired by fix commits (unloading an unknown point "
+              "registered it; overwriting by an operator of the other kind left two files and made the point unreadable)."),
+        note=COMMON_NOTE + "Data independence (uniform treatment of keys and values) and the file-system call contracts are assumed; approximate lookup (EKO.approx) and hash collisions of encode() are not covered.",
+        technique="contract-based verification: representation invariant + abstraction function checked on every (state, operation) pair of a finite abstract state space, real code over a ghost file system",
+        design_ref="DESIGN.md section 2, C37",
+    ),
     "C39": dict(
         category="proof",
         text=("The real mutators of eko.io (EKO.__setitem__, load_recipes, update, xgrid setter, dump to the default archive, Inventory.__setitem__ of all five inventories) and EKO.close run "
